@@ -291,7 +291,9 @@ int tls_cbc_encrypt(const SM3_HMAC_CTX *inited_hmac_ctx, const SM4_KEY *enc_key,
 	}
 
 	rem = (inlen + 32) % 16;
-	memcpy(last_blocks, in + inlen - rem, rem);
+	if (rem) {
+		memcpy(last_blocks, in + inlen - rem, rem);
+	}
 	mac = last_blocks + rem;
 
 	memcpy(&hmac_ctx, inited_hmac_ctx, sizeof(SM3_HMAC_CTX));
